@@ -20,11 +20,11 @@ CORE = [('MC_core.tla', 'MC_core.cfg')]
 PLAN = {
     'C01': {'quick': CORE, 'thorough': [('MC_core.tla', 'MC_core_big.cfg'), ('MC_core.tla', 'MC_err.cfg')]},
     'C02': {'quick': CORE, 'thorough': [('MC_core.tla', 'MC_core_big.cfg'), ('MC_core.tla', 'MC_g1.cfg')]},
-    'C03': {'quick': CORE + [('MC_hist.tla', 'MC_hist.cfg')], 'thorough': [('MC_core.tla', 'MC_core_big.cfg'), ('MC_hist.tla', 'MC_hist.cfg'), ('MC_core.tla', 'MC_rec.cfg')]},
-    'C04': {'quick': CORE, 'thorough': [('MC_core.tla', 'MC_core_big.cfg')]},
+    'C03': {'quick': CORE + [('MC_hist.tla', 'MC_hist.cfg'), ('MC_core.tla', 'MC_live.cfg')], 'thorough': [('MC_core.tla', 'MC_live2.cfg'), ('MC_core.tla', 'MC_core_big.cfg'), ('MC_hist.tla', 'MC_hist.cfg'), ('MC_core.tla', 'MC_rec.cfg')]},
+    'C04': {'quick': CORE + [('MC_core.tla', 'MC_live.cfg')], 'thorough': [('MC_core.tla', 'MC_core_big.cfg'), ('MC_core.tla', 'MC_live2.cfg')]},
     'C05': {'quick': CORE, 'thorough': [('MC_core.tla', 'MC_core_big.cfg'), ('MC_par.tla', 'MC_par.cfg')]},
     'C06': {'quick': CORE, 'thorough': [('MC_core.tla', 'MC_core_big.cfg'), ('MC_par.tla', 'MC_par.cfg')]},
-    'C07': {'quick': [('MC_fwd.tla', 'MC_fwd.cfg')], 'thorough': [('MC_fwd.tla', 'MC_fwd.cfg'), ('MC_fwd.tla', 'MC_fwd2.cfg')]},
+    'C07': {'quick': [('MC_fwd.tla', 'MC_fwd.cfg')], 'thorough': [('MC_fwd.tla', 'MC_fwd.cfg'), ('MC_fwd.tla', 'MC_fwd2.cfg'), ('MC_fwd.tla', 'MC_live_fwd.cfg')]},
     'C08': {'quick': [('MC_fwd.tla', 'MC_fwd.cfg')], 'thorough': [('MC_fwd.tla', 'MC_fwd.cfg'), ('MC_fwd.tla', 'MC_fwd2.cfg')]},
     'C09': {'quick': CORE, 'thorough': [('MC_core.tla', 'MC_core_big.cfg'), ('MC_fwd.tla', 'MC_fwd.cfg'), ('MC_par.tla', 'MC_par.cfg')]},
     'C11': {'quick': [('MC_core.tla', 'MC_err.cfg')], 'thorough': [('MC_core.tla', 'MC_err.cfg')]},
